@@ -11,7 +11,7 @@ from .common import CheckError, log, scratch
 
 class IsaCfg:
     def __init__(self, name, module, cpus, unit_bytes=1, big=False, header=(), covers="", addr_step=1, quick=None,
-                 thorough=None):
+                 thorough=None, seq_only=()):
         self.name = name          # family name used in evidence
         self.module = module      # TLA+ generator module
         self.cpus = cpus          # list of (TLA+ Cpu constant, asl CPU name)
@@ -21,6 +21,7 @@ class IsaCfg:
         self.covers = covers
         self.quick = quick            # TLA+ Cpu constants run in the quick tier (default: all)
         self.thorough = thorough      # ... in the thorough tier (default: all)
+        self.seq_only = list(seq_only)  # (TLA+ Cpu, asl cpu) covered by the adjacency dimension only
         self.addr_step = addr_step    # address units per encoding unit (2 for 16-bit words in a byte-addressed segment)
 
 
@@ -36,11 +37,11 @@ def gen_cases(cfg, cpu, k, salt, extra_consts="", timeout=600, workers=1):
     """Run the TLC generator for one CPU variant; returns (TLCResult, [case dicts])."""
     d = os.path.join(scratch(), "isacfg")
     os.makedirs(d, exist_ok=True)
-    path = os.path.join(d, "%s_%s.cfg" % (cfg.module, cpu))
+    path = os.path.join(d, "%s_%s.cfg" % (cfg.module, cpu.replace(":", "_")))
     with open(path, "w") as f:
-        f.write('CONSTANTS Cpu = "%s" K = %d Salt = %d %s\nINIT Init\nNEXT Next\n'
+        f.write('CONSTANTS Cpu = "%s" K = %d Salt = %d Step = %d %s\nINIT Init\nNEXT Next\n'
                 'INVARIANTS UnitsTyped DecodeInverts OutOfRangeIsError Dump\nCHECK_DEADLOCK FALSE\n'
-                % (cpu, k, salt, extra_consts))
+                % (cpu, k, salt, cfg.addr_step, extra_consts))
     r = tlc.must(tlc.run(cfg.module, path, workers=workers, timeout=timeout, mem="4g", tags=("OUT",)),
                  "%s(%s)" % (cfg.module, cpu))
     if r.violation:
@@ -49,6 +50,24 @@ def gen_cases(cfg, cpu, k, salt, extra_consts="", timeout=600, workers=1):
     if not cases:
         raise CheckError("%s(%s) printed no cases" % (cfg.module, cpu))
     return r, cases
+
+
+def gen_seq(cfg, cpu, salt, timeout=900):
+    """adjacency dimension: one record {a, b} per ordered pair of mnemonics (IsaGen SInit / SDump)"""
+    d = os.path.join(scratch(), "isacfg")
+    os.makedirs(d, exist_ok=True)
+    path = os.path.join(d, "%s_%s_seq.cfg" % (cfg.module, cpu.replace(":", "_")))
+    with open(path, "w") as f:
+        f.write('CONSTANTS Cpu = "%s" K = 1 Salt = %d Step = %d\nINIT SInit\nNEXT SNext\nINVARIANT SDump\n'
+                'CHECK_DEADLOCK FALSE\n' % (cpu, salt, cfg.addr_step))
+    r = tlc.must(tlc.run(cfg.module, path, workers=1, timeout=timeout, mem="4g", tags=("SEQ",)),
+                 "%s(%s) adjacency" % (cfg.module, cpu))
+    if r.violation:
+        raise CheckError("ISA table %s adjacency generator: %s" % (cfg.module, r.violation[:800]))
+    pairs = [c for (t, c) in r.printed if t == "SEQ"]
+    if not pairs:
+        raise CheckError("%s(%s) printed no pairs" % (cfg.module, cpu))
+    return r, pairs
 
 
 def stmt_text(case):
@@ -66,8 +85,8 @@ def batch_source(cfg, aslcpu, cases):
     lines = ["\tcpu\t%s" % aslcpu] + list(cfg.header)
     where = {}
     for i, c in enumerate(cases):
-        if c["pc"] >= 0:
-            lines.append("\torg\t%d" % c["pc"])
+        if c.get("org", c["pc"]) >= 0:
+            lines.append("\torg\t%d" % c.get("org", c["pc"]))
         lines.append(stmt_text(c))
         where[i] = len(lines)
     return "\n".join(lines) + "\n", where
